@@ -23,6 +23,20 @@
 //! Also, there are to mostly
 //! [SudachiPy-compatible Python bindings](https://worksapplications.github.io/sudachi.rs/python/).
 
+#[cfg(feature = "verif")]
+macro_rules! verif_point {
+    ($label:expr) => {
+        $crate::verif::sched_point($label)
+    };
+}
+#[cfg(not(feature = "verif"))]
+macro_rules! verif_point {
+    ($label:expr) => {};
+}
+
+#[cfg(feature = "verif")]
+pub mod verif;
+
 pub mod analysis;
 pub mod config;
 pub mod dic;
